@@ -84,6 +84,8 @@ type genOpts struct {
 // "strict" additionally judges the acknowledgement of requests in which a broken line is followed by another line.
 func withEnvSwitches(o genOpts) (genOpts, bool) {
 	strict := false
+	// fixed in /repo (83d1537, c209245, 7cc6ec2): these classes are part of the main campaigns again
+	o.allowFloatFast, o.allowTSOverflow, o.allowGarbageF, o.allowQuoteInside = true, true, true, true
 	for _, k := range strings.Split(os.Getenv("C06_ALLOW"), ",") {
 		switch strings.TrimSpace(k) {
 		case "bigint":
